@@ -1035,6 +1035,10 @@ TABLES = {
     "PanicSites": gen_panic_sites,
 }
 
+sys.path.insert(0, os.path.dirname(os.path.abspath(__file__)))
+import tables_c04  # noqa: E402
+TABLES.update(tables_c04.tables(globals()))
+
 
 def main():
     repo, gen_dir = sys.argv[1], sys.argv[2]
